@@ -41,6 +41,23 @@ def _bootstrap_env():
     sys.dont_write_bytecode = True
 
 
+class _Guarded(object):
+    """work unit wrapper: a unit that does not come back within the limit is a harness error with a message, not a silent hang
+    (a mutated tree can make library code loop for ever inside a sequential check)"""
+    def __init__(self, func, seconds):
+        self.func = func
+        self.seconds = seconds
+
+    def __call__(self, unit):
+        from vf.common import deadline, EvaluationHang
+        from vf.explore import HarnessError
+        try:
+            with deadline(self.seconds):
+                return self.func(unit)
+        except EvaluationHang:
+            raise HarnessError("work unit did not finish within %d s of real time (library code that never returns?): %s" % (self.seconds, repr(unit)[:300]))
+
+
 class Ctx:
     def __init__(self, pid, tier, seed, jobs):
         self.property_id = pid
@@ -64,7 +81,8 @@ class Ctx:
         if self._pool is None:
             mpctx = multiprocessing.get_context("fork")
             self._pool = mpctx.Pool(self.jobs)
-        for r in self._pool.imap_unordered(func, tasks, chunksize):
+        limit = int(os.environ.get("VF_UNIT_LIMIT", "0")) or (1200 if self.quick else 10800)
+        for r in self._pool.imap_unordered(_Guarded(func, limit), tasks, chunksize):
             yield r
 
     def close(self):
